@@ -201,7 +201,14 @@ class SymCtx(_BaseCtx):
         return value
 
     def assume(self, c):
-        self.ex.assume(bt(c) if not isinstance(c, bool) else c)
+        """harness assumption; a path that contradicts it is dropped (not proved vacuously)"""
+        c = bt(c) if not isinstance(c, bool) else c
+        if c is True:
+            return
+        self.ex.assume(c)
+        if self.ex.trace or self.ex.pc:
+            if not self.ex.feasible(True):
+                raise sc.PathAbort()
 
     # ---- calls into the library
     def call(self, target, *args, **kwargs):
@@ -628,7 +635,7 @@ def run_check(prop_id, tier='quick', seed=0, budget_s=None, procs=None, replay_s
     jobs_partial = 0
     skipped = 0
     trivial = 0
-    pending = [{'prop': prop_id, 'job': j, 'prefixes': [[]], 'slice_s': meta.get('slice_s', 20), 'seed': seed,
+    pending = [{'prop': prop_id, 'job': j, 'prefixes': [[]], 'slice_s': meta.get('slice_s', 5), 'seed': seed,
                 'samples': 1} for j in jobs]
     job_state = {json.dumps(j, sort_keys=True): {'open': 1, 'partial': False} for j in jobs}
     stop = False
